@@ -2,7 +2,7 @@
     unit, list, prod, sumbool and sumor map to the OCaml types; N, positive, Z and nat stay the
     extracted inductive types. No [Extract Constant], no further [Extract Inductive]. *)
 From Coq Require Import Extraction ExtrOcamlBasic.
-From AnemoVerif Require Import Base Utf8 Bincode Status Wire SizeLimit Timeout AuthLayer Inflight Gcra Router Codegen ActivePeers MutualDial Dialer NetModel Tls Shutdown ShutdownTrace.
+From AnemoVerif Require Import Base Utf8 Bincode Status Wire SizeLimit Timeout AuthLayer Inflight Gcra Router Codegen ActivePeers MutualDial Dialer NetModel Tls Shutdown ShutdownTrace Rpc RpcTrace.
 
 Extraction Language OCaml.
 
@@ -31,4 +31,5 @@ Separate Extraction
   Dialer.check Dialer.b_update Dialer.backoff_duration Dialer.first_tick_after
   NetModel.step NetModel.run NetModel.lists NetModel.admission NetModel.adversarial_hello_accepted NetModel.dial_outcome
   Tls.accept_remote Tls.accept_client Tls.honest_cert Tls.honest_proof Tls.verify_cert Tls.verify_cert_pinned Tls.verify_hs Tls.peer_id Tls.accept_chain
-  Shutdown.init Shutdown.step Shutdown.run ShutdownTrace.trun ShutdownTrace.tstep ShutdownTrace.count_answers ShutdownTrace.unanswered.
+  Shutdown.init Shutdown.step Shutdown.run ShutdownTrace.trun ShutdownTrace.tstep ShutdownTrace.count_answers ShutdownTrace.unanswered
+  Rpc.open_stream Rpc.sstep Rpc.crun RpcTrace.erun RpcTrace.estep.
